@@ -118,6 +118,8 @@ class Repo:
     def mro(self, clsname):
         out = []
         todo = [clsname]
+        if clsname not in self.classes:
+            return [clsname]
         while todo:
             c = todo.pop(0)
             if c in out or c not in self.classes:
